@@ -8,9 +8,12 @@ import (
 	"context"
 	"encoding/json"
 	"fmt"
+	"math"
 	"math/rand/v2"
+	"sort"
 	"strings"
 	"sync"
+	"sync/atomic"
 	"testing"
 	"time"
 
@@ -24,7 +27,23 @@ import (
 	"github.com/ava-labs/hypersdk/x/dsmr/dsmrtest"
 )
 
-const c35HardCap = 400 // GetChunk requests per Accept after which the monitor gives up on it
+const (
+	c35HardCap       = 2500 // GetChunk requests per Accept (all chunks together) after which the monitor gives up on it
+	c35MaxWitnesses  = 3    // reported witnesses of C35/holder-never-asked (further ones are only counted)
+	c35MissProbBound = 1e-30
+)
+
+// c35AskBound is the logical-step bound of "acceptance succeeds once a peer
+// serves a valid chunk": Accept picks the peer to ask uniformly at random among
+// the n validators, so a particular validator is not asked once in K requests
+// with probability ((n-1)/n)^K. The bound is the smallest K that makes this
+// < 1e-30 (n=2: 100, n=3: 171, n=4: 241, n=5: 310, n=8: 518), plus one.
+func c35AskBound(n int) int {
+	if n < 2 {
+		return 1
+	}
+	return int(math.Ceil(math.Log(1/c35MissProbBound)/math.Log(float64(n)/float64(n-1)))) + 1
+}
 
 // ---- case description (JSON witness) ----
 
@@ -119,15 +138,56 @@ type c35Ctl struct {
 	stuck    chan struct{}
 	stuckOn  ids.ID
 	never    chan struct{}
+	// logical-step oracle: per chunk of the running Accept
+	limit       int                    // requests for one chunk after which the Accept is judged not to make progress
+	reqs        map[ids.ID]int         // requests seen for the chunk
+	asked       map[ids.ID]map[int]int // chunk -> peer -> requests
+	holders     map[ids.ID][]int       // peers that hold the chunk when the Accept starts
+	holderAsked map[ids.ID]int         // requests for the chunk that went to one of its holders
+	parked      bool                   // a verdict was signalled: every further request parks
+	panics      []c35Panic             // recovered on message delivery goroutines
 }
 
-func (c *c35Ctl) begin(script []string, blockPos map[ids.ID]int, sibling map[ids.ID][]byte) {
+type c35Panic struct {
+	Where string `json:"where"`
+	Value string `json:"value"`
+	Stack string `json:"stack"`
+}
+
+func (c *c35Ctl) notePanic(where string, v any, stack string) {
+	// keep the frames below the runtime's panic machinery
+	if i := strings.Index(stack, "panic("); i >= 0 {
+		stack = stack[i:]
+	}
+	if len(stack) > 1500 {
+		stack = stack[:1500]
+	}
+	c.mu.Lock()
+	defer c.mu.Unlock()
+	if len(c.panics) < 4 {
+		c.panics = append(c.panics, c35Panic{Where: where, Value: fmt.Sprint(v), Stack: stack})
+	}
+}
+
+func (c *c35Ctl) takePanics() []c35Panic {
+	c.mu.Lock()
+	defer c.mu.Unlock()
+	p := c.panics
+	c.panics = nil
+	return p
+}
+
+func (c *c35Ctl) begin(script []string, blockPos map[ids.ID]int, sibling map[ids.ID][]byte, holders map[ids.ID][]int, limit int) {
 	c.mu.Lock()
 	defer c.mu.Unlock()
 	c.script, c.pos, c.n, c.events = script, 0, 0, nil
 	c.blockPos, c.sibling = blockPos, sibling
 	c.valid = map[ids.ID]int{}
 	c.refetch = 0
+	c.limit, c.holders = limit, holders
+	c.reqs = map[ids.ID]int{}
+	c.asked = map[ids.ID]map[int]int{}
+	c.holderAsked = map[ids.ID]int{}
 }
 
 type c35Handler struct {
@@ -157,10 +217,28 @@ func (h *c35Handler) AppRequest(ctx context.Context, nodeID ids.NodeID, deadline
 		}
 	}
 	c.mu.Lock()
+	if c.parked {
+		c.mu.Unlock()
+		<-c.never
+		return nil, common.ErrTimeout
+	}
 	c.n++
 	n := c.n
-	if n > c35HardCap {
+	c.reqs[id]++
+	if c.asked[id] == nil {
+		c.asked[id] = map[int]int{}
+	}
+	c.asked[id][h.peer]++
+	for _, hp := range c.holders[id] {
+		if hp == h.peer {
+			c.holderAsked[id]++
+		}
+	}
+	// c.limit requests for this chunk were answered and the Accept asks again
+	// (or it asked c35HardCap times in total): no progress in logical steps.
+	if c.reqs[id] > c.limit || n > c35HardCap {
 		c.stuckOn = id
+		c.parked = true
 		select {
 		case c.stuck <- struct{}{}:
 		default:
@@ -252,10 +330,14 @@ type c35Fail struct {
 
 type c35Stats struct {
 	accepts, allLocal, withFetch, fetched, requests, valid, unavail, refetch int
+	soleFirst, soleMiddle, soleLast, soleFetched, maxReqsPerChunk            int
+	neverAskedSuppressed, deliveryPanics                                     int
 	faults                                                                   map[string]int
 	shapes                                                                   []string
 	inconclusive                                                             string
 }
+
+var c35NeverAskedWitnesses atomic.Int32
 
 func runC35(t *testing.T, c c35Case) (st c35Stats, fails []c35Fail) {
 	st.faults = map[string]int{}
@@ -271,10 +353,17 @@ func runC35(t *testing.T, c c35Case) (st c35Stats, fails []c35Fail) {
 		stuck:    make(chan struct{}, 1),
 		never:    make(chan struct{}),
 	}
+	var deliveryErr atomic.Value
 	nodes, err := vfNewNodes(t, net, vfNodeOpts{
 		rules: testRuleFactory,
 		wrapGetChunk: func(_, peer int, h p2p.Handler) p2p.Handler {
 			return &c35Handler{ctl: ctl, peer: peer, inner: h}
+		},
+		// the response callback of Accept runs on a message delivery goroutine:
+		// a panic there must become a verdict, not the end of the monitor process
+		getChunkGuard: &vfClientGuard{
+			onPanic: ctl.notePanic,
+			onError: func(where string, err error) { deliveryErr.Store(where + ": " + err.Error()) },
 		},
 	})
 	if err != nil {
@@ -295,6 +384,14 @@ func runC35(t *testing.T, c c35Case) (st c35Stats, fails []c35Fail) {
 		}
 		st.unavail += ctl.unavail
 		ctl.mu.Unlock()
+		// a panic recovered after the Accept that caused it had returned
+		if ps := ctl.takePanics(); len(ps) > 0 {
+			st.deliveryPanics += len(ps)
+			fails = append(fails, c35Fail{"C35/panic-while-fetching-chunk", fmt.Sprintf("panic on a message delivery goroutine (%s): %s", ps[0].Where, ps[0].Value), map[string]any{"case": c, "panics": ps}})
+		}
+		if v := deliveryErr.Load(); v != nil && st.inconclusive == "" && len(fails) == 0 {
+			st.inconclusive = "harness: message delivery failed: " + v.(string)
+		}
 	}()
 
 	parent := Block{}
@@ -339,6 +436,7 @@ func runC35(t *testing.T, c c35Case) (st c35Stats, fails []c35Fail) {
 			}
 			local := make([]bool, len(items))
 			nRemote := 0
+			holdersOf := map[ids.ID][]int{}
 			var pat strings.Builder
 			for ci, it := range items {
 				_, err := node.st.GetChunkBytes(it.chunk.Expiry, it.chunk.id)
@@ -347,27 +445,44 @@ func runC35(t *testing.T, c c35Case) (st c35Stats, fails []c35Fail) {
 					pat.WriteByte('L')
 				} else {
 					nRemote++
-					holders := 0
+					var hs []int
 					for oj, on := range nodes {
 						if oj == ni {
 							continue
 						}
 						if _, err := on.st.GetChunkBytes(it.chunk.Expiry, it.chunk.id); err == nil {
-							holders++
+							hs = append(hs, oj)
 						}
 					}
+					holders := len(hs)
 					if holders == 0 {
 						st.inconclusive = fmt.Sprintf("harness: chunk %d of block %d is held by no node", ci, bi)
 						return
 					}
+					holdersOf[it.chunk.id] = hs
 					fmt.Fprintf(&pat, "R%d", holders)
+					if holders == 1 {
+						// position of the only holder in the canonical validator order (the order Accept draws from)
+						switch net.pos[hs[0]] {
+						case 0:
+							st.soleFirst++
+							pat.WriteByte('f')
+						case c.K - 1:
+							st.soleLast++
+							pat.WriteByte('l')
+						default:
+							st.soleMiddle++
+							pat.WriteByte('m')
+						}
+					}
 				}
 			}
 			script := []string(nil)
 			if ni < len(b.Scripts) {
 				script = b.Scripts[ni]
 			}
-			ctl.begin(script, blockPos, sibling)
+			limit := c35AskBound(c.K) + len(script)
+			ctl.begin(script, blockPos, sibling, holdersOf, limit)
 			var eb ExecutedBlock[dsmrtest.Tx]
 			var accErr error
 			var panicked any
@@ -383,18 +498,46 @@ func runC35(t *testing.T, c c35Case) (st c35Stats, fails []c35Fail) {
 				if len(ev) > 40 {
 					ev = ev[len(ev)-40:]
 				}
-				return map[string]any{"case": c, "block": bi, "node": ni, "chunks_local_or_remote": pat.String(), "script": script, "last_requests": ev}
+				return map[string]any{"case": c, "block": bi, "node": ni, "chunks_local_or_remote": pat.String(), "script": script, "last_requests": ev, "canonical_position_of_node": net.pos}
 			}
 			select {
 			case <-done:
 			case <-ctl.stuck:
 				ctl.mu.Lock()
-				v := ctl.valid[ctl.stuckOn]
+				id := ctl.stuckOn
+				v := ctl.valid[id]
+				reqs, total := ctl.reqs[id], ctl.n
+				holderAsked := ctl.holderAsked[id]
+				hs := ctl.holders[id]
+				askedPerPeer := map[string]int{}
+				for p, k := range ctl.asked[id] {
+					askedPerPeer[fmt.Sprintf("node %d (canonical position %d)", p, net.pos[p])] = k
+				}
+				cpos, known := blockPos[id]
 				ctl.mu.Unlock()
-				if v > 0 {
-					fails = append(fails, c35Fail{"C35/accept-never-completes-after-valid-chunk", fmt.Sprintf("block %d node %d (%s): Accept issued more than %d GetChunk requests although a valid copy of the requested chunk was served %d times", bi, ni, pat.String(), c35HardCap, v), wit()})
-				} else {
-					st.inconclusive = fmt.Sprintf("block %d node %d: %d requests without any valid serve (harness)", bi, ni, c35HardCap)
+				st.requests += total
+				switch {
+				case v > 0:
+					fails = append(fails, c35Fail{"C35/accept-never-completes-after-valid-chunk", fmt.Sprintf("block %d node %d (%s): Accept issued more than %d GetChunk requests for one chunk (%d in total) although a valid copy of the requested chunk was served %d times", bi, ni, pat.String(), reqs-1, total, v), wit()})
+				case known && len(hs) > 0 && holderAsked == 0:
+					// reqs-1 requests for this chunk were answered, none went to a validator that holds it
+					hpos := make([]int, len(hs))
+					for i, h := range hs {
+						hpos[i] = net.pos[h]
+					}
+					sort.Ints(hpos)
+					if c35NeverAskedWitnesses.Add(1) > c35MaxWitnesses {
+						st.neverAskedSuppressed++
+						return
+					}
+					w := wit()
+					w["chunk"] = cpos
+					w["holders"] = hs
+					w["holders_canonical_positions"] = hpos
+					w["requests_for_chunk_per_peer"] = askedPerPeer
+					fails = append(fails, c35Fail{"C35/holder-never-asked", fmt.Sprintf("block %d node %d (%s): Accept sent %d GetChunk requests for chunk %d and never asked the only validator(s) holding it (node(s) %v, canonical position(s) %v of %d validators); with uniformly random targets this has probability < %.0e, so acceptance does not succeed although a peer would serve a valid chunk", bi, ni, pat.String(), reqs-1, cpos, hs, hpos, c.K, c35MissProbBound), w})
+				default:
+					st.inconclusive = fmt.Sprintf("block %d node %d: %d requests for one chunk (%d in total) without any valid serve although a holder was asked %d times (harness)", bi, ni, reqs-1, total, holderAsked)
 				}
 				return
 			}
@@ -410,6 +553,11 @@ func runC35(t *testing.T, c c35Case) (st c35Stats, fails []c35Fail) {
 				}
 			}
 			reqs, refetch := ctl.n, ctl.refetch
+			for _, k := range ctl.reqs {
+				if k > st.maxReqsPerChunk {
+					st.maxReqsPerChunk = k
+				}
+			}
 			ctl.mu.Unlock()
 			st.requests += reqs
 			st.valid += served
@@ -425,6 +573,13 @@ func runC35(t *testing.T, c c35Case) (st c35Stats, fails []c35Fail) {
 			if panicked != nil {
 				fails = append(fails, c35Fail{"C35/accept-panics", fmt.Sprintf("%s: Accept panicked: %v", where, panicked), wit()})
 				return
+			}
+			if ps := ctl.takePanics(); len(ps) > 0 {
+				st.deliveryPanics += len(ps)
+				w := wit()
+				w["panics"] = ps
+				fails = append(fails, c35Fail{"C35/panic-while-fetching-chunk", fmt.Sprintf("%s: panic on a message delivery goroutine (%s) while Accept fetched a chunk: %s", where, ps[0].Where, ps[0].Value), w})
+				// go on: what Accept returned is judged as well
 			}
 			if accErr != nil {
 				switch {
@@ -475,6 +630,9 @@ func runC35(t *testing.T, c c35Case) (st c35Stats, fails []c35Fail) {
 				fails = append(fails, c35Fail{"C35/refetch-after-valid-chunk-served", fmt.Sprintf("%s: %d GetChunk requests for a chunk of which a valid copy had already been served", where, refetch), wit()})
 				return
 			}
+			if len(fails) > 0 {
+				return
+			}
 		}
 		parent = blk
 	}
@@ -502,6 +660,24 @@ func c35Gen(rng *rand.Rand) c35Case {
 				nh = 1 + rng.IntN(c.K)
 			}
 			perm := rng.Perm(c.K)
+			if nh == 1 {
+				// the only holder is often the canonically last / first validator
+				// (Accept draws its request target from the canonical order)
+				want := -1
+				switch rng.IntN(6) {
+				case 0, 1:
+					want = c.K - 1
+				case 2:
+					want = 0
+				}
+				if net, err := c35Net(c.K); err == nil && want >= 0 {
+					for i, p := range net.pos {
+						if p == want {
+							perm[0] = i
+						}
+					}
+				}
+			}
 			ch.Holders = append(ch.Holders, perm[:nh]...)
 			b.Chunks = append(b.Chunks, ch)
 		}
@@ -527,11 +703,13 @@ func c35Gen(rng *rand.Rand) c35Case {
 
 func TestC35(t *testing.T) {
 	r := kit.Start(t, "C35", "fault_enumeration")
-	r.Rule("cases = 2..5 real dsmr nodes (real ChunkStorage, ChunkVerifier, GetChunk handlers and p2p clients; deterministic validator keys), chains of 1..3 blocks of 1..4 certificates whose chunks are stored by a chosen subset of nodes; every node verifies and accepts every block in a random order, so that each chunk is local for some acceptors and must be fetched by others (from peers that hold it as pending or already accepted). Every GetChunk handler is wrapped: the next 0..5 responses during an Accept follow a script over {app error, not-available, garbage bytes, empty chunk, truncated chunk, corrupted signature, tampered body, another valid chunk, another chunk of the same block}, afterwards peers answer honestly (the request target is chosen at random by the code under test). Judged per Accept: it returns without error, ExecutedBlock.Chunks are byte-for-byte the certificates' chunks in certificate order with nothing extra, and no further request is sent for a chunk once a valid copy was served. One evaluation = one Accept; non-trivial = at least one chunk had to be fetched; distinct = (nodes, block index, local/remote pattern with holder counts, fault script).")
+	r.Rule("cases = 2..5 real dsmr nodes (real ChunkStorage, ChunkVerifier, GetChunk handlers and p2p clients; deterministic validator keys), chains of 1..3 blocks of 1..4 certificates whose chunks are stored by a chosen subset of nodes; every node verifies and accepts every block in a random order, so that each chunk is local for some acceptors and must be fetched by others (from peers that hold it as pending or already accepted). Every GetChunk handler is wrapped: the next 0..5 responses during an Accept follow a script over {app error, not-available, garbage bytes, empty chunk, truncated chunk, corrupted signature, tampered body, another valid chunk, another chunk of the same block}, afterwards peers answer honestly (the request target is chosen at random by the code under test). Judged per Accept: it returns without error, ExecutedBlock.Chunks are byte-for-byte the certificates' chunks in certificate order with nothing extra, and no further request is sent for a chunk once a valid copy was served. Bounded progress in logical steps: the wrapped handlers count the requests per chunk and which validators were asked; when K(n)+len(script) requests for one chunk were answered (K(n) = smallest K with ((n-1)/n)^K < 1e-30, n = number of validators: 100/171/241/310 for 2/3/4/5, plus one) and none of them went to a validator holding the chunk, the Accept is reported as C35/holder-never-asked and abandoned (its next request is parked; at most 3 witnesses are reported). Chunks with a single holder are placed on the canonically last validator in 1/3 and on the first in 1/6 of the cases, else at random. One evaluation = one Accept; non-trivial = at least one chunk had to be fetched; distinct = (nodes, block index, local/remote pattern with holder counts and, for a single holder, its place f/m/l in the canonical validator order, fault script).")
 	r.Assume(
 		"certificates are forged with all validator keys and chunks are placed with AddLocalChunkWithCert (the BuildChunk signature round would store the chunk on every signer); the Accept path under test is the same",
 		"chunk expiries lie inside every node's validity window, so a valid chunk is admissible on every node",
-		fmt.Sprintf("an Accept that issues more than %d requests although valid copies were served is reported as never completing (the handler parks; no wall-clock verdict)", c35HardCap),
+		"an Accept that keeps asking for a chunk beyond the per-chunk request bound although valid copies of it were served is reported as never completing (the handler parks; no wall-clock verdict)",
+		"a request strategy that makes progress gives every validator a chance of at least 1/n per request (the code under test draws uniformly; round-robin or holder-aware strategies are asked sooner), so not asking the holder(s) in K(n) requests is not a chance event (< 1e-30 per Accept)",
+		"the GetChunk clients are wired like avalanchego's p2ptest.NewClientWithPeers, except that the message delivery goroutines recover panics and hand them to the monitor",
 	)
 	total := c35Stats{faults: map[string]int{}}
 	var mu sync.Mutex
@@ -549,6 +727,14 @@ func TestC35(t *testing.T) {
 		total.valid += st.valid
 		total.unavail += st.unavail
 		total.refetch += st.refetch
+		total.soleFirst += st.soleFirst
+		total.soleMiddle += st.soleMiddle
+		total.soleLast += st.soleLast
+		total.neverAskedSuppressed += st.neverAskedSuppressed
+		total.deliveryPanics += st.deliveryPanics
+		if st.maxReqsPerChunk > total.maxReqsPerChunk {
+			total.maxReqsPerChunk = st.maxReqsPerChunk
+		}
 		for k, v := range st.faults {
 			total.faults[k] += v
 		}
@@ -575,6 +761,13 @@ func TestC35(t *testing.T) {
 		r.Count("valid_chunks_served", total.valid)
 		r.Count("honest_peer_without_chunk", total.unavail)
 		r.Count("requests_after_valid_serve", total.refetch)
+		r.Count("fetch_with_only_holder_canonically_first", total.soleFirst)
+		r.Count("fetch_with_only_holder_canonically_middle", total.soleMiddle)
+		r.Count("fetch_with_only_holder_canonically_last", total.soleLast)
+		r.Count("max_requests_for_one_chunk", total.maxReqsPerChunk)
+		r.Count("holder_never_asked_witnesses_suppressed", total.neverAskedSuppressed)
+		r.Count("panics_recovered_on_delivery_goroutines", total.deliveryPanics)
+		r.Extra("requests_per_chunk_bound_by_validators", map[string]int{"2": c35AskBound(2), "3": c35AskBound(3), "4": c35AskBound(4), "5": c35AskBound(5)})
 		for k, v := range total.faults {
 			r.Count("fault_"+k, v)
 		}
